@@ -107,8 +107,16 @@ def run(ctx, selftest=False):
             nf += 1
             ctx.fail("C01.FiniteForValidInput", {"id": "finite-%d" % info["seed"], "input": info})
     ctx.notes["off_lattice_finiteness_cases"] = len(fin)
-    verdicts = ctx.validate("GaussTrace", traces, timeout=3000)
-    ctx.judge(traces, verdicts, families=FAMILIES)
+    # the floating-point transcription of Gauss.tla must reproduce the specification's exact matrices on the lattice (family H:
+    # a failure is a machinery failure) ...
+    otr = [gd.oracle_trace(c) for c in cases[:: (4 if quick else 1)]]
+    ctx.notes["oracle_validated_on_lattice_configurations"] = len(otr)
+    # ... and is then the oracle OFF the lattice: random real-valued problems (1..30 epochs, eccentric orbits, trends, offsets,
+    # means, jitter, caps, random units) - value against ln N(y; M mu, Cs + M Lambda M^T), equal through both entry points
+    gd.offlattice(ctx, "C01", 60 if quick else 1500, [("dev_ll", "OffLatticeValueIsLnNormalOfTheSpecifiedGaussian"),
+                                                         ("dev_paths", "OffLatticeSameValueThroughEveryEntryPoint")])
+    verdicts = ctx.validate("GaussTrace", traces + otr, timeout=3000)
+    ctx.judge(traces + otr, verdicts, families=FAMILIES + ("H.",))
     if selftest or not quick:
         import copy
         muts = []
